@@ -373,10 +373,24 @@ func (c *xsyncMapOf[K, V]) DeleteExpired() {
 	c.items.Range(func(k K, v itemOf[V]) bool {
 		i := v
 		if i.expiredWithNow(now) {
-			c.items.Delete(k)
-			if ec != nil {
-				evictedItems = append(evictedItems, kvOf[K, V]{k, i.v})
-			}
+			// double check or delete
+			c.items.Compute(
+				k,
+				func(value itemOf[V], loaded bool) (itemOf[V], bool) {
+					if !loaded {
+						return value, true
+					}
+					if !value.expiredWithNow(now) {
+						// k has a new value
+						return value, false
+					}
+					if ec != nil {
+						evictedItems = append(evictedItems, kvOf[K, V]{k, value.v})
+					}
+					// delete
+					return value, true
+				},
+			)
 		}
 		return true
 	})
